@@ -773,6 +773,10 @@ impl Indexable for ast::InnerValue {
                 ast::ValueSuffix::FieldSuffix(field_suffix) => {
                     let (name, reference_loc) = utils::identifier(&field_suffix.name()?, ctx)?;
                     let Some(field_id) = lhs_typ.find_field(&ctx.symbol_map, &name) else {
+                        if lhs_typ == Type::Unknown {
+                            // the record type could not be inferred: nothing to check
+                            return None;
+                        }
                         ctx.error(
                             field_suffix.syntax().text_range(),
                             format!("cannot access field: {name}"),
